@@ -49,13 +49,20 @@ RULE = (
     "pairs (tag / default / kind / name / parameter dropped or inserted), then seeded random pairs of up to 5 parameters, then typed pairs (each parameter and "
     "the return annotated with one of none/object/int/bool/float/str, biased towards shape-compatible pairs); a pair "
     "is non-trivial when both headers have a parameter; distinct = distinct pair text. Only pairs the implementation "
-    "accepts enter the property search; unannotated parameters are gradual and never count as a type mismatch"
+    "accepts enter the property search; unannotated parameters are gradual and never count as a type mismatch. "
+    "Override route: class hierarchies of 2-5 classes (single base, chains with and without a gap, sibling bases, "
+    "three bases, diamonds, random DAGs; both orders of the bases), 1-2 attributes, each bound as method / "
+    "staticmethod / property in a random subset of the classes, headers drawn from the signature generator with the "
+    "override drawn near one of the ancestors' headers; EVERY class of the hierarchy that binds the attribute is a "
+    "case, judged against EVERY ancestor in its real __mro__ that binds it"
 )
 ASSUMPTIONS = [
     "both sides are def-shaped Signatures (no ParamSpec / Callable[..., T] ellipsis, no *args: *tuple[...] / **kwargs: Unpack[TD], no asynq)",
     "annotations range over the tag universe {none, object, int, bool, float, str}; the seven annotation-level questions the kernel asks are tabulated from the live tree on every run (Generated/SigTypes.lean)",
     "call shapes are enumerated up to 3 positionals and 3 keywords over the parameter names of both headers plus one foreign name (the Lean theorem has no such bound)",
     "membership for the typed part: isinstance plus int->float promotion on one representative object per class",
+    "override route: methods, staticmethods and properties (getter type, setter present); classmethods are not compared by pyanalyze at all (a classmethod object is not callable) and are left out, as are a property overriding a function or vice versa, deleters, and overloaded methods",
+    "route coverage is an AST scan with a receiver-name heuristic (receiver text ends in sig/signature/_bound, CallableValue(...), self inside the two can_assign methods); a route reached through a differently named local would not be listed",
 ]
 TRUSTED = [
     "Spec/CpyBind.lean (cpyBind) and Spec/SigAssignSpec.lean (slotTy/kwTy) are validated against real calls on every run (stream spec)",
@@ -352,6 +359,8 @@ def corpus_pairs():
             l = l.strip()
             if l:
                 d = json.loads(l)
+                if "exp" not in d:      # a class hierarchy: harness/props/c07_hier.py
+                    continue
                 out.append(((tuple(tuple(p) for p in d["exp"]), d.get("exp_ret", "any")),
                             (tuple(tuple(p) for p in d["act"]), d.get("act_ret", "any"))))
     return out
